@@ -27,6 +27,17 @@
 //! the delegation record of the top-most cut must be there (NS, no SOA, DS
 //! as present, or the opt-out proof) and nothing below the cut owns,
 //! matches or starts an interval.
+//!
+//! A fourth enumeration is over the ROUTES by which the NSEC3 parameters
+//! reach the generator (`PRoute`): `Nsec3param::new` with the Opt-Out bit in
+//! its flags argument, `with_opt_out()`, `set_opt_out_flag()`, the wire
+//! parser, the zonefile scanner, octets conversion, the public fields of a
+//! default configuration, the default object; x Opt-Out modes x reserved flag
+//! bits, on the product of the zone features Opt-Out acts on.  All
+//! expectations are computed from the REQUESTED values held in `N3Cfg`, never
+//! from a getter of the library's parameters object; the getters themselves
+//! are checked against the requested values, and `Nsec3param` / `Nsec3` are
+//! checked as value carriers over menus of all four parameter fields.
 use bytes::Bytes;
 use domain::base::iana::{Class, DigestAlgorithm, Nsec3HashAlgorithm, Rtype, SecurityAlgorithm};
 use domain::base::name::{Name, ParsedName};
@@ -38,7 +49,9 @@ use domain::dnssec::sign::records::{RecordsIter, SliceRefsOrOwned};
 use domain::rdata::dnssec::{RtypeBitmap, RtypeBitmapBuilder};
 use domain::rdata::nsec3::OwnerHash;
 use domain::rdata::{Nsec, Nsec3};
-use octseq::Parser;
+use octseq::builder::{EmptyBuilder, FromBuilder};
+use octseq::{OctetsFrom, OctetsInto, Parser};
+use domain::zonefile::inplace::{Entry, Zonefile};
 use domain::dnssec::sign::denial::nsec::{generate_nsecs, GenerateNsecConfig};
 use domain::dnssec::sign::denial::nsec3::{generate_nsec3s, GenerateNsec3Config, Nsec3ParamTtlMode};
 use domain::dnssec::sign::records::{DefaultSorter, SortedRecords};
@@ -726,6 +739,86 @@ fn mk_rec(owner: &Labels, t: u16, v: u8) -> LRec {
 
 // ------------------------------------------------------------- configs
 
+/// How the `Nsec3param` inside the generator configuration comes into being.
+/// The REQUESTED values are the fields of `N3Cfg`; every expectation of the
+/// oracle is computed from them, never from a getter of the library object.
+#[derive(Clone, Copy, PartialEq, Eq, Debug)]
+enum PRoute {
+    /// `Nsec3param::new(SHA1, reserved bits, ..)` + `GenerateNsec3Config::with_opt_out()`
+    Setter,
+    /// Opt-Out requested through the flags argument of `Nsec3param::new`
+    NewFlags,
+    /// `Nsec3param::new(.., reserved bits, ..)` + `Nsec3param::set_opt_out_flag()`
+    SetFlag,
+    /// RFC 5155 §4.2 wire octets -> `Nsec3param::parse` -> octets conversion
+    Wire,
+    /// RFC 5155 §4.3 presentation text in a zone file -> zonefile scanner
+    Text,
+    /// `Nsec3param<&[u8]>::new` -> `OctetsFrom` conversion
+    Convert,
+    /// `GenerateNsec3Config::default()` with every public field assigned
+    Field,
+    /// `GenerateNsec3Config::default()` (+ `with_opt_out()`): only for the
+    /// RFC 9276 parameters without reserved bits
+    DefaultObj,
+}
+
+const PROUTES: [PRoute; 8] = [PRoute::Setter, PRoute::NewFlags, PRoute::SetFlag, PRoute::Wire, PRoute::Text, PRoute::Convert, PRoute::Field, PRoute::DefaultObj];
+
+impl PRoute {
+    fn name(self) -> &'static str {
+        match self {
+            PRoute::Setter => "new(flags=reserved)+with_opt_out",
+            PRoute::NewFlags => "new(flags=reserved|opt-out)",
+            PRoute::SetFlag => "new(flags=reserved)+set_opt_out_flag",
+            PRoute::Wire => "parse(wire)",
+            PRoute::Text => "zonefile-scan(text)",
+            PRoute::Convert => "new<&[u8]>+octets-conversion",
+            PRoute::Field => "default-config+public-fields",
+            PRoute::DefaultObj => "default-config(+with_opt_out)",
+        }
+    }
+    fn parse(s: &str) -> PRoute {
+        PROUTES.iter().copied().find(|r| r.name() == s).unwrap_or(PRoute::Setter)
+    }
+}
+
+/// RFC 5155 §4.2 NSEC3PARAM RDATA (same layout as the head of §3.2).
+fn param_wire(alg: u8, flags: u8, iters: u16, salt: &[u8]) -> Vec<u8> {
+    let mut w = vec![alg, flags];
+    w.extend_from_slice(&iters.to_be_bytes());
+    w.push(salt.len() as u8);
+    w.extend_from_slice(salt);
+    w
+}
+
+/// RFC 5155 §4.3 presentation format: decimal algorithm, flags, iterations;
+/// salt in hex or "-".
+fn param_text(alg: u8, flags: u8, iters: u16, salt: &[u8]) -> String {
+    format!("{alg} {flags} {iters} {}", if salt.is_empty() { "-".to_string() } else { hex(salt) })
+}
+
+fn param_from_wire(w: &[u8]) -> Result<Nsec3param<Vec<u8>>, String> {
+    let mut p = Parser::from_ref(w);
+    let r = Nsec3param::<&[u8]>::parse(&mut p).map_err(|_| "Nsec3param::parse refused RFC 5155 wire octets".to_string())?;
+    if p.remaining() != 0 {
+        return Err("Nsec3param::parse left octets unread".into());
+    }
+    r.try_octets_into().map_err(|_| "octets conversion failed".to_string())
+}
+
+fn param_from_text(rdata: &str) -> Result<Nsec3param<Vec<u8>>, String> {
+    let zone = format!("z. 3600 IN NSEC3PARAM {rdata}\n");
+    let mut zf = Zonefile::from(zone.as_bytes());
+    match zf.next_entry() {
+        Ok(Some(Entry::Record(r))) => match r.into_data() {
+            ZoneRecordData::Nsec3param(p) => p.try_octets_into().map_err(|_| "octets conversion failed".to_string()),
+            _ => Err("zonefile scanner did not produce NSEC3PARAM record data".into()),
+        },
+        _ => Err("zonefile scanner refused RFC 5155 presentation text".into()),
+    }
+}
+
 #[derive(Clone, Debug)]
 struct N3Cfg {
     salt: Vec<u8>,
@@ -736,11 +829,15 @@ struct N3Cfg {
     dnskey: bool,
     /// 0 = Soa, 1 = Fixed(7), 2 = SoaMinimum
     ttl_mode: u8,
+    /// how the parameters object is constructed
+    proute: PRoute,
+    /// reserved bits (mask 0xFE) requested in the flags octet
+    xflags: u8,
 }
 
 impl N3Cfg {
     fn json(&self) -> Value {
-        json!({"salt": hex(&self.salt), "iterations": self.iters, "opt_out": self.opt_out, "exclude": self.exclude, "dnskey": self.dnskey, "ttl_mode": self.ttl_mode})
+        json!({"salt": hex(&self.salt), "iterations": self.iters, "opt_out": self.opt_out, "exclude": self.exclude, "dnskey": self.dnskey, "ttl_mode": self.ttl_mode, "params_route": self.proute.name(), "reserved_flags": self.xflags})
     }
     fn lib(&self) -> GenerateNsec3Config<Bytes, DefaultSorter> {
         self.lib_g::<Bytes>()
@@ -748,14 +845,83 @@ impl N3Cfg {
 
     /// Is this the configuration `GenerateNsec3Config::default()` documents?
     fn is_default(&self) -> bool {
-        self.salt.is_empty() && self.iters == 0 && !self.opt_out && self.exclude && self.dnskey && self.ttl_mode == 0
+        self.salt.is_empty() && self.iters == 0 && !self.opt_out && self.exclude && self.dnskey && self.ttl_mode == 0 && self.proute == PRoute::Setter && self.xflags == 0
     }
 
-    fn lib_g<O: AsRef<[u8]> + From<&'static [u8]> + From<Vec<u8>>>(&self) -> GenerateNsec3Config<O, DefaultSorter> {
-        let salt = Nsec3Salt::<O>::from_octets(O::from(self.salt.clone())).expect("salt");
-        let params = Nsec3param::new(Nsec3HashAlgorithm::SHA1, 0, self.iters, salt);
+    /// The flags octet the caller asks for.
+    fn want_flags(&self) -> u8 {
+        (self.xflags & 0xFE) | self.opt_out as u8
+    }
+
+    fn lib_g<O>(&self) -> GenerateNsec3Config<O, DefaultSorter>
+    where
+        O: AsRef<[u8]> + From<&'static [u8]> + From<Vec<u8>> + Clone + FromBuilder + OctetsFrom<Vec<u8>>,
+        <O as FromBuilder>::Builder: EmptyBuilder + AsRef<[u8]> + AsMut<[u8]>,
+    {
+        self.try_lib_g::<O>().expect("parameter construction")
+    }
+
+    fn try_lib_g<O>(&self) -> Result<GenerateNsec3Config<O, DefaultSorter>, String>
+    where
+        O: AsRef<[u8]> + From<&'static [u8]> + From<Vec<u8>> + Clone + FromBuilder + OctetsFrom<Vec<u8>>,
+        <O as FromBuilder>::Builder: EmptyBuilder + AsRef<[u8]> + AsMut<[u8]>,
+    {
+        let salt = || Nsec3Salt::<O>::from_octets(O::from(self.salt.clone())).expect("salt");
+        let conv = |p: Nsec3param<Vec<u8>>| -> Result<Nsec3param<O>, String> { p.try_octets_into().map_err(|_| "octets conversion failed".to_string()) };
+        let reserved = self.xflags & 0xFE;
+        let ttl = || match self.ttl_mode {
+            0 => Nsec3ParamTtlMode::soa(),
+            1 => Nsec3ParamTtlMode::fixed(Ttl::from_secs(7)),
+            _ => Nsec3ParamTtlMode::soa_minimum(),
+        };
+        let mut with_opt_out = false;
+        let params: Nsec3param<O> = match self.proute {
+            PRoute::Setter => {
+                with_opt_out = self.opt_out;
+                Nsec3param::new(Nsec3HashAlgorithm::SHA1, reserved, self.iters, salt())
+            }
+            PRoute::NewFlags => Nsec3param::new(Nsec3HashAlgorithm::SHA1, self.want_flags(), self.iters, salt()),
+            PRoute::SetFlag => {
+                let mut p = Nsec3param::new(Nsec3HashAlgorithm::SHA1, reserved, self.iters, salt());
+                if self.opt_out {
+                    p.set_opt_out_flag();
+                }
+                p
+            }
+            PRoute::Wire => conv(param_from_wire(&param_wire(1, self.want_flags(), self.iters, &self.salt))?)?,
+            PRoute::Text => conv(param_from_text(&param_text(1, self.want_flags(), self.iters, &self.salt))?)?,
+            PRoute::Convert => {
+                let s = Nsec3Salt::<&[u8]>::from_octets(self.salt.as_slice()).expect("salt");
+                let p: Nsec3param<Vec<u8>> = Nsec3param::<&[u8]>::new(Nsec3HashAlgorithm::SHA1, self.want_flags(), self.iters, s).try_octets_into().map_err(|_| "octets conversion failed".to_string())?;
+                conv(p.clone())?
+            }
+            PRoute::Field => {
+                let mut c = GenerateNsec3Config::<O, DefaultSorter>::default();
+                c.params = Nsec3param::new(Nsec3HashAlgorithm::SHA1, self.want_flags(), self.iters, salt());
+                c.opt_out_exclude_owner_names_of_unsigned_delegations = self.exclude;
+                c.assume_dnskeys_will_be_added = self.dnskey;
+                c.nsec3param_ttl_mode = ttl();
+                return Ok(c);
+            }
+            PRoute::DefaultObj => {
+                if !(self.salt.is_empty() && self.iters == 0 && reserved == 0) {
+                    return Err("harness: the default route only exists for the RFC 9276 parameters".into());
+                }
+                let mut c = GenerateNsec3Config::<O, DefaultSorter>::default();
+                if self.opt_out {
+                    c = c.with_opt_out();
+                }
+                if !self.exclude {
+                    c = c.without_opt_out_excluding_owner_names_of_unsigned_delegations();
+                }
+                if !self.dnskey {
+                    c = c.without_assuming_dnskeys_will_be_added();
+                }
+                return Ok(c.with_ttl_mode(ttl()));
+            }
+        };
         let mut cfg = GenerateNsec3Config::<O, DefaultSorter>::new(params);
-        if self.opt_out {
+        if with_opt_out {
             cfg = cfg.with_opt_out();
         }
         if !self.exclude {
@@ -764,11 +930,7 @@ impl N3Cfg {
         if !self.dnskey {
             cfg = cfg.without_assuming_dnskeys_will_be_added();
         }
-        cfg.with_ttl_mode(match self.ttl_mode {
-            0 => Nsec3ParamTtlMode::soa(),
-            1 => Nsec3ParamTtlMode::fixed(Ttl::from_secs(7)),
-            _ => Nsec3ParamTtlMode::soa_minimum(),
-        })
+        Ok(cfg.with_ttl_mode(ttl()))
     }
 }
 
@@ -787,7 +949,7 @@ fn nsec3_configs(quick: bool) -> Vec<N3Cfg> {
                     // the RFC 9276 parameters only, thorough also with (AB, 5)
                     continue;
                 }
-                v.push(N3Cfg { salt: salt.clone(), iters: it, opt_out, exclude, dnskey, ttl_mode: 0 });
+                v.push(N3Cfg { salt: salt.clone(), iters: it, opt_out, exclude, dnskey, ttl_mode: 0, proute: PRoute::Setter, xflags: 0 });
             }
         }
     }
@@ -798,7 +960,7 @@ fn nsec3_configs(quick: bool) -> Vec<N3Cfg> {
             continue;
         }
         for ttl_mode in [1u8, 2] {
-            v.push(N3Cfg { salt: vec![], iters: 0, opt_out, exclude, dnskey: true, ttl_mode });
+            v.push(N3Cfg { salt: vec![], iters: 0, opt_out, exclude, dnskey: true, ttl_mode, proute: PRoute::Setter, xflags: 0 });
         }
     }
     v
@@ -861,6 +1023,89 @@ impl N3Run {
     fn new(u: &Universe, cfg: N3Cfg) -> N3Run {
         N3Run { lib: cfg.lib(), lib_v: cfg.lib_g::<Vec<u8>>(), pidx: u.pidx(&cfg.salt, cfg.iters), cfg }
     }
+
+    /// Builds the library configuration through `cfg.proute` and checks that
+    /// the getters of the resulting parameters object return the REQUESTED
+    /// values.  A route that fails is reported and replaced by the setter
+    /// route so that the zones still run.
+    fn checked(ctx: &Ctx, u: &Universe, cfg: N3Cfg, loc: &mut Local) -> N3Run {
+        let replay = json!({"mode": "static", "params": cfg.json()});
+        let built = guard(|| (cfg.try_lib_g::<Bytes>(), cfg.try_lib_g::<Vec<u8>>()));
+        loc.evals += 1;
+        loc.inc("params_route_objects_built");
+        match built {
+            Ok((Ok(lib), Ok(lib_v))) => {
+                for (octs, got) in [("Bytes", params_facts(&lib.params)), ("Vec<u8>", params_facts(&lib_v.params))] {
+                    for which in params_facts_diff(&got, 1, cfg.want_flags(), cfg.iters, &cfg.salt) {
+                        ctx.violation(
+                            &format!("C13|nsec3|params-object|{}|{which}", cfg.proute.name()),
+                            &format!("parameters requested: alg 1 flags {} iterations {} salt {}; built through {} over {octs}; {which}: the object says alg {} flags {} opt_out_flag {} iterations {} salt {}", cfg.want_flags(), cfg.iters, hex(&cfg.salt), cfg.proute.name(), got.alg, got.flags, got.opt_out, got.iters, hex(&got.salt)),
+                            replay.clone(),
+                        );
+                    }
+                }
+                let cfg_ok = lib.assume_dnskeys_will_be_added == cfg.dnskey && lib.opt_out_exclude_owner_names_of_unsigned_delegations == cfg.exclude && lib_v.assume_dnskeys_will_be_added == cfg.dnskey && lib_v.opt_out_exclude_owner_names_of_unsigned_delegations == cfg.exclude;
+                if !cfg_ok {
+                    ctx.violation(&format!("C13|nsec3|config-object|{}|public-field-differs-from-request", cfg.proute.name()), &format!("GenerateNsec3Config built for {:?}: assume_dnskeys_will_be_added / opt_out_exclude_owner_names_of_unsigned_delegations differ from the request", cfg), replay.clone());
+                }
+                N3Run { lib, lib_v, pidx: u.pidx(&cfg.salt, cfg.iters), cfg }
+            }
+            other => {
+                let why = match other {
+                    Err(p) => format!("panicked: {p}"),
+                    Ok((a, b)) => a.err().or(b.err()).unwrap_or_default(),
+                };
+                ctx.violation(&format!("C13|nsec3|params-route|{}|construction-failed", cfg.proute.name()), &format!("building the NSEC3 parameters (flags {} iterations {} salt {}) through {} failed: {why}", cfg.want_flags(), cfg.iters, hex(&cfg.salt), cfg.proute.name()), replay);
+                N3Run::new(u, N3Cfg { proute: PRoute::Setter, ..cfg })
+            }
+        }
+    }
+}
+
+/// What the getters of a parameters object say.
+struct ParamsFacts {
+    alg: u8,
+    flags: u8,
+    opt_out: bool,
+    iters: u16,
+    salt: Vec<u8>,
+    wire: Option<Vec<u8>>,
+}
+
+fn params_facts<O: AsRef<[u8]>>(p: &Nsec3param<O>) -> ParamsFacts {
+    let mut w = Vec::new();
+    let wire = match guard(|| p.compose_rdata(&mut w)) {
+        Ok(Ok(())) => Some(w),
+        _ => None,
+    };
+    ParamsFacts { alg: p.hash_algorithm().to_int(), flags: p.flags(), opt_out: p.opt_out_flag(), iters: p.iterations(), salt: p.salt().as_slice().to_vec(), wire }
+}
+
+/// Getters / RDATA against the values that were put in.
+fn params_facts_diff(got: &ParamsFacts, alg: u8, flags: u8, iters: u16, salt: &[u8]) -> Vec<&'static str> {
+    let mut bad = Vec::new();
+    if got.alg != alg {
+        bad.push("hash_algorithm()-differs-from-input");
+    }
+    if got.flags & 1 != flags & 1 {
+        bad.push(if flags & 1 == 1 { "flags()-lost-the-opt-out-bit" } else { "flags()-gained-the-opt-out-bit" });
+    }
+    if got.flags & 0xFE != flags & 0xFE {
+        bad.push("flags()-reserved-bits-differ-from-input");
+    }
+    if got.opt_out != (flags & 1 == 1) {
+        bad.push(if flags & 1 == 1 { "opt_out_flag()-false-though-requested" } else { "opt_out_flag()-true-though-not-requested" });
+    }
+    if got.iters != iters {
+        bad.push("iterations()-differs-from-input");
+    }
+    if got.salt != salt {
+        bad.push("salt()-differs-from-input");
+    }
+    if got.wire.as_deref() != Some(param_wire(alg, flags, iters, salt).as_slice()) {
+        bad.push("compose_rdata-differs-from-rfc5155-wire-format-of-input");
+    }
+    bad
 }
 
 // ------------------------------------------------ routes and raw records
@@ -1442,6 +1687,12 @@ fn check_nsec3(run: &Run, z: &Zone, src: &Src, route: Route, n3: &N3Run, deep: b
             ctx.violation(&format!("C13|nsec3|panic|{}", panic_class(&p)), &format!("generate_nsec3s panicked: {p}; route {}; cfg {:?}; zone: {}", route.name(), cfg, z.text()), replay());
             return;
         }
+        Ok(Err(_)) if cfg.xflags & 0xFE != 0 => {
+            // RFC 5155 §3.1.2: "All undefined flags must be zero": refusing
+            // a request for reserved bits is acceptable
+            loc.inc("observed_reserved_flag_bits_refused");
+            return;
+        }
         Ok(Err(e)) => {
             loc.inc("nsec3_err");
             ctx.violation(&format!("C13|nsec3|error|{e:?}"), &format!("generate_nsec3s returned {e:?} for a complete sorted zone; route {}; cfg {:?}; zone: {}", route.name(), cfg, z.text()), replay());
@@ -1451,8 +1702,12 @@ fn check_nsec3(run: &Run, z: &Zone, src: &Src, route: Route, n3: &N3Run, deep: b
     };
     loc.inc("nsec3_ok");
     if param.flags != 0 {
-        // observation only (RFC 5155 §4.1.2); not part of the property text
+        // observation only (RFC 5155 §4.1.2: zero); the library copies the
+        // requested flags, the property text does not mention the field
         loc.inc("observed_nsec3param_flags_nonzero");
+    }
+    if cfg.xflags & 0xFE != 0 {
+        loc.inc(if out.iter().any(|r| r.flags & 0xFE != 0) { "observed_reserved_flag_bits_copied_into_nsec3" } else { "observed_reserved_flag_bits_cleared_in_nsec3" });
     }
     // RFC 5155 §7.1 step 8: "add an NSEC3PARAM RR with the same Hash
     // Algorithm, Iterations, and Salt fields to the zone apex"
@@ -1465,6 +1720,10 @@ fn check_nsec3(run: &Run, z: &Zone, src: &Src, route: Route, n3: &N3Run, deep: b
         }
         if param.alg != 1 {
             bad("hash-algorithm");
+        }
+        // zero (RFC 5155 §4.1.2) or what was requested, never anything else
+        if param.flags & !cfg.want_flags() != 0 {
+            bad("flags-bit-not-requested");
         }
         if param.iters != cfg.iters {
             bad("iterations");
@@ -1610,8 +1869,13 @@ fn check_nsec3(run: &Run, z: &Zone, src: &Src, route: Route, n3: &N3Run, deep: b
         if r.salt != cfg.salt {
             bad("field-salt");
         }
-        if r.flags != cfg.opt_out as u8 {
+        // Opt-Out bit iff REQUESTED (RFC 5155 §3.1.2.1); a reserved bit only
+        // if the caller asked for it (the library may copy or clear those)
+        if r.flags & 1 != cfg.opt_out as u8 {
             bad(if cfg.opt_out { "field-flags-optout-bit-clear" } else { "field-flags-optout-bit-set" });
+        }
+        if r.flags & 0xFE & !cfg.xflags != 0 {
+            bad("field-flags-reserved-bit-not-requested");
         }
         if !r.class_in {
             bad("class");
@@ -2052,7 +2316,7 @@ fn bc_nsec3_configs(quick: bool) -> Vec<N3Cfg> {
         for (opt_out, exclude) in [(false, true), (true, true), (true, false)] {
             let keep = !quick || (salt.is_empty() && it == 0) || (salt.len() == 1 && it == 5 && !opt_out);
             if keep {
-                v.push(N3Cfg { salt: salt.clone(), iters: it, opt_out, exclude, dnskey: true, ttl_mode: 0 });
+                v.push(N3Cfg { salt: salt.clone(), iters: it, opt_out, exclude, dnskey: true, ttl_mode: 0, proute: PRoute::Setter, xflags: 0 });
             }
         }
     }
@@ -2613,6 +2877,169 @@ fn static_checks(ctx: &Ctx, u: &Universe, loc: &mut Local) {
     for (seq, k) in bad {
         ctx.violation(&format!("C13|bitmap-builder|{k}"), &format!("RtypeBitmapBuilder fed {} in this order: {k}", tnames(&seq)), json!({"mode": "static", "types": seq}));
     }
+    static_param_checks(ctx, loc);
+}
+
+/// NSEC3PARAM / NSEC3 record data as VALUE CARRIERS: whatever route the four
+/// parameter fields take into the object (constructor, wire parser, zonefile
+/// scanner, octets conversion, clone, Display -> scanner), the getters and
+/// the composed RDATA give back exactly what was put in; `set_opt_out_flag`
+/// sets bit 0 and nothing else; `Default` is (SHA-1, 0, 0, empty).
+fn static_param_checks(ctx: &Ctx, loc: &mut Local) {
+    let quick = ctx.quick();
+    let algs: &[u8] = if quick { &[1, 2] } else { &[0, 1, 2, 255] };
+    let flag_menu: &[u8] = if quick { &[0, 1, 2, 0x80, 0x81, 0xFF] } else { &[0, 1, 2, 3, 0x40, 0x80, 0x81, 0xFE, 0xFF] };
+    let iter_menu: &[u16] = if quick { &[0, 1, 5, 0x0100, 65535] } else { &[0, 1, 5, 150, 255, 0x0100, 0x0101, 32768, 65535] };
+    let salts: Vec<Vec<u8>> = vec![vec![], vec![0xAB], vec![0x00], (1..=8).collect(), (0..255).map(|i| (i as u8).wrapping_mul(7)).collect()];
+    for &alg in algs {
+        for &flags in flag_menu {
+            for &iters in iter_menu {
+                for salt in &salts {
+                    loc.evals += 1;
+                    loc.inc("static_param_value_cases");
+                    let replay = json!({"mode": "static", "nsec3param": {"alg": alg, "flags": flags, "iterations": iters, "salt": hex(salt)}});
+                    let r = guard(|| {
+                        let mut bad: Vec<(&'static str, &'static str)> = Vec::new();
+                        let mut chk = |route: &'static str, p: Result<Nsec3param<Vec<u8>>, String>| match p {
+                            Ok(p) => {
+                                for w in params_facts_diff(&params_facts(&p), alg, flags, iters, salt) {
+                                    bad.push((route, w));
+                                }
+                                Some(p)
+                            }
+                            Err(_) => {
+                                bad.push((route, "refused"));
+                                None
+                            }
+                        };
+                        let h = Nsec3HashAlgorithm::from_int(alg);
+                        let sv = || Nsec3Salt::<Vec<u8>>::from_octets(salt.clone()).expect("salt");
+                        let base = chk("new", Ok(Nsec3param::new(h, flags, iters, sv())));
+                        chk("new<Bytes>+octets-conversion", Nsec3param::new(h, flags, iters, Nsec3Salt::<Bytes>::from_octets(Bytes::from(salt.clone())).expect("salt")).try_octets_into().map_err(|_| String::new()));
+                        chk("new<&[u8]>+octets-conversion", Nsec3param::new(h, flags, iters, Nsec3Salt::<&[u8]>::from_octets(salt.as_slice()).expect("salt")).try_octets_into().map_err(|_| String::new()));
+                        let parsed = chk("parse(wire)", param_from_wire(&param_wire(alg, flags, iters, salt)));
+                        let scanned = chk("zonefile-scan(text)", param_from_text(&param_text(alg, flags, iters, salt)));
+                        if let Some(b) = &base {
+                            chk("clone", Ok(b.clone()));
+                            // what the library prints must scan back to the same values
+                            chk("zonefile-scan(Display)", param_from_text(&format!("{b}")));
+                            // the setter: bit 0 set, nothing else touched
+                            let mut m = b.clone();
+                            m.set_opt_out_flag();
+                            for w in params_facts_diff(&params_facts(&m), alg, flags | 1, iters, salt) {
+                                bad.push(("new+set_opt_out_flag", w));
+                            }
+                            // equality is equality of the four fields
+                            for (route, o) in [("parse(wire)", &parsed), ("zonefile-scan(text)", &scanned)] {
+                                if let Some(o) = o {
+                                    if o != b {
+                                        bad.push((route, "not-equal-to-new()-of-the-same-values"));
+                                    }
+                                }
+                            }
+                            let other = Nsec3param::new(h, flags ^ 1, iters, sv());
+                            if other == *b {
+                                bad.push(("new", "objects-differing-in-the-opt-out-bit-compare-equal"));
+                            }
+                        }
+                        // the same four fields at the head of NSEC3 record data
+                        let next = OwnerHash::<Vec<u8>>::from_octets(vec![0x11; 20]).expect("hash");
+                        let types = RtypeBitmap::<Vec<u8>>::from_octets(bitmap_encode(&[T_A, T_RRSIG])).expect("bitmap");
+                        let n3 = Nsec3::new(h, flags, iters, sv(), next, types);
+                        let mut want = param_wire(alg, flags, iters, salt);
+                        want.push(20);
+                        want.extend_from_slice(&[0x11; 20]);
+                        want.extend_from_slice(&bitmap_encode(&[T_A, T_RRSIG]));
+                        let mut out = Vec::new();
+                        let composed = n3.compose_rdata(&mut out).is_ok() && out == want;
+                        if n3.hash_algorithm().to_int() != alg || n3.flags() != flags || n3.opt_out() != (flags & 1 == 1) || n3.iterations() != iters || n3.salt().as_slice() != salt.as_slice() {
+                            bad.push(("Nsec3::new", "getter-differs-from-input"));
+                        }
+                        if !composed {
+                            bad.push(("Nsec3::new", "compose_rdata-differs-from-rfc5155-wire-format-of-input"));
+                        }
+                        match Nsec3::<&[u8]>::parse(&mut Parser::from_ref(want.as_slice())) {
+                            Ok(back) if back.flags() == flags && back.opt_out() == (flags & 1 == 1) && back.iterations() == iters && back.hash_algorithm().to_int() == alg && back.salt().as_slice() == salt.as_slice() && back == n3 => {}
+                            _ => bad.push(("Nsec3::parse(wire)", "getter-differs-from-input")),
+                        }
+                        bad
+                    });
+                    match r {
+                        Ok(bad) => {
+                            for (route, w) in bad {
+                                ctx.violation(&format!("C13|nsec3|params-object|{route}|{w}"), &format!("NSEC3 parameters alg {alg} flags {flags} iterations {iters} salt {} through {route}: {w}", hex(salt)), replay.clone());
+                            }
+                        }
+                        Err(p) => {
+                            ctx.violation(&format!("C13|nsec3|params-object|panic|{}", panic_class(&p)), &format!("NSEC3 parameters alg {alg} flags {flags} iterations {iters} salt {}: panicked: {p}", hex(salt)), replay);
+                        }
+                    }
+                }
+            }
+        }
+    }
+    // Default: RFC 9276 §3.1 parameters, flags zero
+    loc.evals += 1;
+    let d = guard(|| (params_facts(&Nsec3param::<Vec<u8>>::default()), params_facts(&Nsec3param::<Bytes>::default()), params_facts(&GenerateNsec3Config::<Bytes, DefaultSorter>::default().params)));
+    match d {
+        Ok((a, b, c)) => {
+            for (route, f) in [("Nsec3param::<Vec<u8>>::default", a), ("Nsec3param::<Bytes>::default", b), ("GenerateNsec3Config::default().params", c)] {
+                for w in params_facts_diff(&f, 1, 0, 0, &[]) {
+                    ctx.violation(&format!("C13|nsec3|params-object|{route}|{w}"), &format!("{route} is not (SHA-1, flags 0, 0 iterations, empty salt): {w}"), json!({"mode": "static", "nsec3param": "default"}));
+                }
+            }
+        }
+        Err(p) => {
+            ctx.violation(&format!("C13|nsec3|params-object|panic|{}", panic_class(&p)), &format!("Nsec3param::default panicked: {p}"), json!({"mode": "static", "nsec3param": "default"}));
+        }
+    }
+}
+
+/// The zones of the PARAMETER-ROUTE dimension: full product of what Opt-Out
+/// can act on (insecure delegation with / without glue at and below the cut,
+/// secure delegation, an empty non-terminal derived only from an insecure
+/// delegation or also from an authoritative name) x the extras switch.
+fn pr_slots() -> Vec<Slot> {
+    let s = |name: &'static str, kinds: &[&[u16]]| Slot { name, variant: 1, kinds: kinds.iter().map(|k| k.to_vec()).collect() };
+    vec![
+        s("a.z.", &[&[], &[T_A]]),
+        s("c.z.", &[&[], &[T_NS], &[T_NS, T_A, T_A]]),
+        s("g.c.z.", &[&[], &[T_A]]),
+        s("d.z.", &[&[], &[T_NS, T_DS]]),
+        s("e.f.z.", &[&[], &[T_A]]),
+        s("h.f.z.", &[&[], &[T_A], &[T_NS]]),
+    ]
+}
+
+/// Every route by which the parameters reach the generator x the three
+/// Opt-Out modes x reserved flag bits x two (salt, iterations).
+fn pr_configs(quick: bool) -> Vec<N3Cfg> {
+    let mut v = Vec::new();
+    let xmenu: &[u8] = if quick { &[0, 0x80] } else { &[0, 0x02, 0x80, 0xFE] };
+    for (salt, iters) in [(vec![], 0u16), (vec![0xAB], 5)] {
+        for proute in PROUTES {
+            for &xflags in xmenu {
+                if proute == PRoute::DefaultObj && !(salt.is_empty() && xflags == 0) {
+                    continue;
+                }
+                for (opt_out, exclude) in [(false, true), (true, true), (true, false)] {
+                    for dnskey in [true, false] {
+                        for ttl_mode in [0u8, 2] {
+                            // DNSKEY-off / another TTL mode: only where the
+                            // route sets them differently (public fields,
+                            // default object); thorough: everywhere
+                            let plain = dnskey && ttl_mode == 0;
+                            if !plain && quick && !(matches!(proute, PRoute::Field | PRoute::DefaultObj) && xflags == 0 && !dnskey && ttl_mode == 2) {
+                                continue;
+                            }
+                            v.push(N3Cfg { salt: salt.clone(), iters, opt_out, exclude, dnskey, ttl_mode, proute, xflags });
+                        }
+                    }
+                }
+            }
+        }
+    }
+    v
 }
 
 fn run_replay(ctx: &Ctx, path: &str) -> ! {
@@ -2640,6 +3067,8 @@ fn run_replay(ctx: &Ctx, path: &str) -> ! {
             exclude: c["exclude"].as_bool().unwrap(),
             dnskey: c["dnskey"].as_bool().unwrap(),
             ttl_mode: c["ttl_mode"].as_u64().unwrap() as u8,
+            proute: PRoute::parse(c["params_route"].as_str().unwrap_or("")),
+            xflags: c["reserved_flags"].as_u64().unwrap_or(0) as u8,
         };
         if !u.params.iter().any(|(s, i)| *s == cfg.salt && *i == cfg.iters) {
             let mut p = param_menu();
@@ -2740,7 +3169,10 @@ fn main() {
     let wd = Watchdog::start(ctx.clone(), Duration::from_secs(60), |_d| "C13|hang|generator-did-not-terminate".to_string());
     let f_id = u.id_of(&parse_name("f.z.")).unwrap();
     // configuration used for the extra routes (refs / Vec<u8> octets)
-    let route_cfg = N3Run::new(&u, N3Cfg { salt: vec![0xAB], iters: 1, opt_out: true, exclude: true, dnskey: true, ttl_mode: 2 });
+    // (its parameters come from Nsec3param::new with the Opt-Out bit in the
+    // flags argument, not from with_opt_out())
+    let mut pr_loc = Local::default();
+    let route_cfg = N3Run::checked(&ctx, &u, N3Cfg { salt: vec![0xAB], iters: 1, opt_out: true, exclude: true, dnskey: true, ttl_mode: 2, proute: PRoute::NewFlags, xflags: 0 }, &mut pr_loc);
     {
         let mut loc = Local::default();
         static_checks(&ctx, &u, &mut loc);
@@ -2851,12 +3283,12 @@ fn main() {
     //      at a plain owner, at a delegation owner and at the apex
     let sweep = sweep_zones();
     let sweep_cfgs: Vec<N3Run> = [
-        N3Cfg { salt: vec![], iters: 0, opt_out: false, exclude: true, dnskey: true, ttl_mode: 0 },
-        N3Cfg { salt: vec![], iters: 0, opt_out: true, exclude: true, dnskey: false, ttl_mode: 0 },
-        N3Cfg { salt: vec![0xAB], iters: 5, opt_out: true, exclude: false, dnskey: true, ttl_mode: 0 },
+        N3Cfg { salt: vec![], iters: 0, opt_out: false, exclude: true, dnskey: true, ttl_mode: 0, proute: PRoute::Setter, xflags: 0 },
+        N3Cfg { salt: vec![], iters: 0, opt_out: true, exclude: true, dnskey: false, ttl_mode: 0, proute: PRoute::Text, xflags: 0 },
+        N3Cfg { salt: vec![0xAB], iters: 5, opt_out: true, exclude: false, dnskey: true, ttl_mode: 0, proute: PRoute::SetFlag, xflags: 0 },
     ]
     .into_iter()
-    .map(|c| N3Run::new(&u, c))
+    .map(|c| N3Run::checked(&ctx, &u, c, &mut pr_loc))
     .collect();
     sweep.par_chunks(64).for_each(|chunk| {
         let mut loc = Local::default();
@@ -2902,7 +3334,7 @@ fn main() {
     let u_bc = build_universe_bc();
     let bsl = bc_slots(quick);
     let bc_runs: Vec<N3Run> = bc_nsec3_configs(quick).into_iter().map(|c| N3Run::new(&u_bc, c)).collect();
-    let bc_route_cfg = N3Run::new(&u_bc, N3Cfg { salt: vec![0xAB], iters: 1, opt_out: true, exclude: true, dnskey: true, ttl_mode: 2 });
+    let bc_route_cfg = N3Run::checked(&ctx, &u_bc, N3Cfg { salt: vec![0xAB], iters: 1, opt_out: true, exclude: true, dnskey: true, ttl_mode: 2, proute: PRoute::Wire, xflags: 0 }, &mut pr_loc);
     let bc_zones: u64 = bsl.iter().map(|s| s.kinds.len() as u64).product();
     let c_id = u_bc.id_of(&parse_name("c.z.")).unwrap();
     (0..bc_zones.div_ceil(CHUNK)).into_par_iter().for_each(|ch| {
@@ -3013,6 +3445,58 @@ fn main() {
         }
     });
 
+    // ---- PARAMETER ROUTES: every way the Nsec3param inside the generator
+    //      configuration can come into being x Opt-Out modes x reserved
+    //      flag bits, on the full product of what Opt-Out acts on; the
+    //      oracle works from the REQUESTED values only
+    let psl = pr_slots();
+    let pr_runs: Vec<N3Run> = pr_configs(quick).into_iter().map(|c| N3Run::checked(&ctx, &u, c, &mut pr_loc)).collect();
+    let pr_zones: u64 = psl.iter().map(|s| s.kinds.len() as u64).product::<u64>() * 2;
+    (0..pr_zones).into_par_iter().for_each(|zi| {
+        let mut loc = Local::default();
+        let run = Run { ctx: &ctx, u: &u, apex: lname(&u.apex_labels), verbose: false };
+        let (recs, _kinds) = zone_of_index(&psl, zi);
+        wd.enter(|| json!({"params_route_zone_index": zi, "records": recs.iter().map(|(o, t, v)| json!([show_name(o), t, v])).collect::<Vec<_>>()}));
+        if let Some(z) = run_zone_opt(&run, recs, &pr_runs, &pr_runs[0], &[], true, false, &mut loc) {
+            loc.inc("params_route_zones");
+            loc.add("params_route_generator_runs", pr_runs.len() as u64);
+            if (0..u.names.len()).any(|i| z.cls[i] == Cls::Cut && !z.has(i, T_DS)) {
+                loc.inc("params_route_zones_with_insecure_delegation");
+            }
+            let mut k = vec![0x9a];
+            for (o, t, v) in &z.recs {
+                k.extend_from_slice(&wire(o));
+                k.extend_from_slice(&t.to_le_bytes());
+                k.push(*v);
+            }
+            for c in &pr_runs {
+                let mut kk = k.clone();
+                kk.extend_from_slice(c.cfg.json().to_string().as_bytes());
+                loc.distinct.push(fnv(&kk));
+            }
+        }
+        wd.leave();
+        stats.distinct_many(loc.distinct.drain(..));
+        shapes.lock().unwrap().extend(loc.shapes.drain(..));
+        let mut t = total.lock().unwrap();
+        t.evals += loc.evals;
+        t.probes += loc.probes;
+        for (k, v) in &loc.c {
+            t.add(k, *v);
+        }
+        for i in 0..32 {
+            t.nsec_len[i] += loc.nsec_len[i];
+            t.nsec3_len[i] += loc.nsec3_len[i];
+        }
+    });
+    {
+        let mut t = total.lock().unwrap();
+        t.evals += pr_loc.evals;
+        for (k, v) in &pr_loc.c {
+            t.add(k, *v);
+        }
+    }
+
     // deterministic samples: fixed zone indices, rendered serially
     let mut samples = Vec::new();
     {
@@ -3055,7 +3539,7 @@ fn main() {
             "evaluations": t.evals,
             "probes_checked": t.probes,
             "distinct_nontrivial": stats.distinct_count(),
-            "rule": "case = (zone, mode in {NSEC, NSEC3}); counted when the zone has >= 2 authoritative owners and at least one of: delegation, glue/occluded name, empty non-terminal, wildcard owner, upper-case twin; key = FNV of the zone's record list + mode (every such zone runs under every config of the mode; evaluations counts generator runs)",
+            "rule": "case = (zone, mode in {NSEC, NSEC3}); counted when the zone has >= 2 authoritative owners and at least one of: delegation, glue/occluded name, empty non-terminal, wildcard owner, upper-case twin; key = FNV of the zone's record list + mode (every such zone runs under every config of the mode; evaluations counts generator runs); plus one case per (zone, configuration) of the parameter-route dimension",
             "exhaustive": true,
             "bound": {
                 "apex": APEX,
@@ -3096,6 +3580,17 @@ fn main() {
                     "probe_names": u_bc.names.len(),
                     "probes": "every closure name x 12 types as in the main product; for a name below a cut (existing or not): delegation record at the TOP-MOST cut (NS, no SOA, DS as present; or opt-out proof), no record owned by / matching the name, NSEC interval containing it starts at the top-most cut",
                 },
+                "parameter_route_dimension": {
+                    "zones": pr_zones,
+                    "slots": psl.iter().map(|s| json!({"name": s.name, "kinds": s.kinds.iter().map(|k| tnames(k)).collect::<Vec<_>>()})).collect::<Vec<_>>(),
+                    "routes": PROUTES.iter().map(|r| r.name()).collect::<Vec<_>>(),
+                    "configs": pr_runs.len(),
+                    "menu": "route x (salt, iterations) in {(-,0), (AB,5)} x {no opt-out, opt-out + exclusion, opt-out without exclusion} x reserved flag bits (quick 0, 0x80; thorough 0, 0x02, 0x80, 0xFE); DNSKEY-off + TTL mode SoaMinimum for the public-field and default-object routes (thorough: for all); the default-object route only for (-,0) without reserved bits",
+                    "oracle": "the same independent chain builder and probes as everywhere else, driven by the REQUESTED values (never by a getter of the library's parameters object): every NSEC3 carries the Opt-Out bit iff requested, insecure delegations are left out iff opt-out + exclusion were requested, a reserved bit appears only if requested (copied or cleared: observed), a refusal is accepted only for reserved bits; NSEC3PARAM: algorithm / iterations / salt as requested, no flag bit that was not requested (zero per RFC 5155 §4.1.2 or the copy the library makes: observed)",
+                    "object_checks": "for every configuration built (Bytes and Vec<u8> octets): hash_algorithm()/flags()/opt_out_flag()/iterations()/salt()/compose_rdata of config.params and the two public switches against the requested values",
+                    "value_carrier_checks": "Nsec3param over algorithm x flags octet x iterations x salt menus (quick 2x6x5x5) through new, new<Bytes>/new<&[u8]> + octets conversion, parse(wire), zonefile scanner on own RFC 5155 §4.3 text, clone, zonefile scanner on the library's Display: getters and composed RDATA equal the input, set_opt_out_flag sets bit 0 only, PartialEq distinguishes the Opt-Out bit; Nsec3::new/parse getters and RDATA over the same menu; Default = (SHA-1, 0, 0, empty)",
+                    "elsewhere": "the refs / vec-octets runs of the main product take their parameters from Nsec3param::new(flags = 1), those of the below-the-cut sweep from parse(wire), two of the three type-sweep configurations from the zonefile scanner and from set_opt_out_flag",
+                },
                 "probe_names": u.names.len(),
                 "probe_types": PROBE_TYPES.iter().map(|t| tname(*t)).collect::<Vec<_>>(),
             },
@@ -3111,7 +3606,8 @@ fn main() {
             "zones are handed to the generators through the library's own SortedRecords (the documented precondition: canonically sorted, apex SOA present, one TTL per RRset); the generators are judged against the records SortedRecords actually holds, and SortedRecords itself is checked for order and for not losing distinct records",
             "RFC 5155 §7.1 lets an empty non-terminal that is only derived from opted-out insecure delegations be left out: the oracle accepts it present or absent",
             "delegation bitmaps are checked against the property text (parent-side types NS/DS only, RRSIG in NSEC3 only with DS)",
-            "TTLs are asserted as documented on the generators (RFC 9077 for NSEC/NSEC3, Nsec3ParamTtlMode for NSEC3PARAM); the NSEC3PARAM flags field is only observed (the library copies the Opt-Out flag into it), its other fields are asserted per RFC 5155 §7.1 step 8",
+            "TTLs are asserted as documented on the generators (RFC 9077 for NSEC/NSEC3, Nsec3ParamTtlMode for NSEC3PARAM); the NSEC3PARAM flags field is only observed (the library copies the requested flags octet into it where RFC 5155 §4.1.2 says zero; the property text does not mention the field) except that it may never carry a bit that was not requested; its other fields are asserted per RFC 5155 §7.1 step 8",
+            "reserved bits (mask 0xFE) requested in the flags octet: the generator may copy them into the NSEC3 RRs, clear them, or refuse the request (RFC 5155 §3.1.2 'must be zero' binds the caller); it may not invent one, and the Opt-Out bit and the exclusion of insecure delegations follow bit 0 of the request alone",
             "a probe strictly below a delegation point is not a denial but a referral: checked is the delegation record at the top-most cut (NS, no SOA, DS as present) and that nothing below the cut owns or matches a record; type probes at the cut other than DS, and at names owning a CNAME, are skipped",
             "authoritative = not strictly below any non-apex NS owner (RFC 4035 §2.3); of several NS owners on one branch only the top-most is a delegation point of this zone, the others are occluded data",
         ],
